@@ -71,6 +71,7 @@ Definition judge (k : case) : nat :=
                || negb (opt_str_eqb (obj_of (e_kind e)) (Some (e_obj e))) && negb (opt_str_eqb (obj_of (e_kind e)) None))
               (match out with
                | Some u => negb (url_is_relative u) || negb (count_slashes (before_hash u) =? 1)
+                           || (1 <? length (filter (ch_eqb "#"%char) u))
                | None => false
                end) 0
   | CDocLink base ctx target frag out =>
